@@ -224,6 +224,53 @@ def check(ctx):
     ctx.decide(" is " in src or "id(" in src, "R-EQ", f"{msg.qual}._lookup_avp_index", msg.where(li),
                "index lookup compares identities", "_lookup_avp_index compares by equality", key="lookup_identity")
 
+    # ---- clause 1b: cleanup forgets every name append can have created -------------------------------------------
+    # append names an AVP `<name>_avp` and repeats `<name>_avp__<n>` for an unbounded n; the key filter of cleanup is
+    # evaluated (term interpreter, key = a concrete witness) on names of that shape: each must be selected, `_avps` must not
+    ctx.clause = "1b-cleanup-covers-append-names"
+    from .. import sym as _sy
+    witnesses = ["x_avp", "origin_host_avp", "x_avp__1", "x_avp__9", "x_avp__10", "route_record_avp__123", "x_avp__4567"]
+    for ci in (msg, grp):
+        cl = ctx.need(ci.methods.get("cleanup"), f"{ci.name}.cleanup")
+        selected = {}
+        sources = []
+        for n in walk_no_nested(cl):
+            if isinstance(n, ast.For) and isinstance(n.target, ast.Name) and "__dict__" in ast.unparse(n.iter):
+                sources.append(("loop", n))
+            elif isinstance(n, (ast.ListComp, ast.GeneratorExp, ast.SetComp)) and len(n.generators) == 1 \
+                    and isinstance(n.generators[0].target, ast.Name) and "__dict__" in ast.unparse(n.generators[0].iter):
+                sources.append(("comp", n))
+        if not sources:
+            ctx.undecided("R-TABLE/cleanup-names", f"{ci.qual}.cleanup", ci.where(cl), "no scan of the attribute map found", key="scan")
+            continue
+        kind, node = sources[0]
+        for w in witnesses + ["_avps", "_loaded", "header"]:
+            it_ = _sy.Interp(fold=lambda e: repo.fold(ci.mod, e), log_calls=True)
+            if kind == "loop":
+                sel = False
+                for p_ in it_.loop_body(node, {node.target.id: w}):
+                    if any(e[0] == "ecall" and isinstance(e[1], tuple) and e[1][0] == "call" and isinstance(e[1][1], tuple) and e[1][1][0] == "attr"
+                           and e[1][1][2] in ("append", "add") and e[1][2] == (w,) for e in p_.effects):
+                        sel = True
+                selected[w] = sel
+            else:
+                st_ = _sy.PathState({node.generators[0].target.id: w}, [], [])
+                vals = [it_.truth(it_.ev(c, st_)) for c in node.generators[0].ifs]
+                selected[w] = None if any(v is None for v in vals) else all(vals)
+        missed = [w for w in witnesses if selected.get(w) is False]
+        unknown = [w for w in selected if selected[w] is None]
+        if unknown:
+            ctx.undecided("R-TABLE/cleanup-names", f"{ci.qual}.cleanup", ci.where(node), f"key filter not evaluable for {unknown}", key="filter")
+            continue
+        ctx.decide(not missed, "R-TABLE/cleanup-names", f"{ci.qual}.cleanup", ci.where(node),
+                   "the key filter selects every name append can create (any repeat index)",
+                   f"cleanup's key filter does not select {missed}, names that append creates for repeated AVPs: after cleanup() / "
+                   f"replacing the list those names still refer to AVPs that are no longer listed, and has_avp() answers True for them",
+                   key="covers")
+        ctx.decide(not selected.get("_avps") and not selected.get("_loaded") and not selected.get("header"), "R-TABLE/cleanup-names",
+                   f"{ci.qual}.cleanup", ci.where(node), "the list attribute itself is not treated as a name",
+                   "cleanup's key filter also selects the container's own attributes", key="not_own", nontrivial=False)
+
     # ---- clause 4: symmetric arithmetic ---------------------------------------------------------
     ctx.clause = "4-symmetric-length"
     for fname, var_hint in (("pop", None), ("cleanup", None)):
@@ -342,6 +389,9 @@ def check(ctx):
                 okh = okh and in_map and nonempty == [True]
             elif p_.value is False:
                 pass
+            elif isinstance(p_.value, tuple) and p_.value[0] == "cmp" and p_.value[1] == "In" and _sym.show(p_.value[3]) == "self.__dict__":
+                n_true += 1          # returns the membership test itself
+                okh = okh and nonempty == [True]
             else:
                 okh = False
             if nonempty == [False] and p_.value is not False:
